@@ -241,10 +241,10 @@ impl C04 {
 impl Monitor for C04 {
     fn engines(&self, tier: Tier) -> Vec<(&'static str, u64)> {
         vec![
-            ("clean", tier.pick(40_000, 400_000)),
-            ("hostile", tier.pick(300_000, 4_000_000)),
-            ("sweep", tier.pick(3_000, 30_000)),
-            ("chains", tier.pick(100_000, 1_000_000)),
+            ("clean", tier.pick(400000, 40000000)),
+            ("hostile", tier.pick(3000000, 400000000)),
+            ("sweep", tier.pick(30000, 3000000)),
+            ("chains", tier.pick(1000000, 100000000)),
             ("ethertype", tier.pick(65_536, 65_536 * 2)),
         ]
     }
